@@ -7,7 +7,7 @@ def check(run):
     n = 24 if run.tier == "quick" else 400
     ops = 300 if run.tier == "quick" else 2000
     kvcommon.drive(run, "struct", n, ops, reopen=True, audit=True, boundary=(60 if run.tier == "quick" else 2000),
-                   destroy=(24 if run.tier == "quick" else 400), thin=(12 if run.tier == "quick" else 300), uplink=(40 if run.tier == "quick" else 1500), ringrun=(1 if run.tier == "quick" else 4))
+                   destroy=(24 if run.tier == "quick" else 400), thin=(12 if run.tier == "quick" else 300), uplink=(40 if run.tier == "quick" else 1500), ringrun=(1 if run.tier == "quick" else 4), stalehead=(4 if run.tier == "quick" else 40))
     return run.finish(level=LEVEL, rule=kvcommon.RULE, assumptions=kvcommon.ASSUME)
 
 def replay(run, path):
